@@ -74,6 +74,14 @@ NEEDS_K = {
  "C20": ("the SNI layer strips the port with a helper that cuts at the LAST colon instead of parsing an authority", "a bracketed IPv6 literal as host and/or server name: [2001:db8::2] is accepted for [2001:db8::1], [::1]:8443 is rejected for [::1]"),
 }
 
+NEEDS_L = {
+ "C06": ("UriKey::new drops a 'default' port from the authority, but scheme and port are looked up in the default-port table separately, not as a pair", "one pooled client, an http/ws request to explicit port 443 (or https/wss to port 80) and a same-host request on the scheme's default port: both are keyed alike and share idle list, waiters and marker"),
+ "C08": ("ReadVersion counts completed reads and decides HTTP/1 after the 8th read that leaves fewer than 24 bytes ('slow-client guard')", "a correct HTTP/2 preface delivered in 9 or more reads (1 or 2 bytes per read): served as HTTP/1"),
+ "C11": ("EyeballSet::push places a candidate straight into the running set while fewer than initial_concurrency are there and the queue is empty; process_all still sizes its initial batch from the queue alone", "candidates added with push (as TcpConnecting does), >= c+1 of them, first attempts that do not complete at once: up to 2c candidates are started at time zero"),
+ "C18": ("DuplexStream gets is_write_vectored() and a poll_write_vectored that copies the slices into a scratch buffer, keeps it across a Pending write and only refills it when empty", "a vectored write directly on the duplex stream that returns Pending (pipe full) and is given up, then a vectored write with other data: the stale bytes are sent, the count can exceed what was offered"),
+ "C19": ("TimeoutFuture polls its Sleep only once (registering the first poll's waker) and afterwards only asks Sleep::is_elapsed()", "the pending future changes hands: polled once with one waker, then awaited with another, nothing else waking the new owner: the deadline wakes nobody, the request stays pending past its deadline"),
+}
+
 NEEDS_H = {}
 src = open('/verif/tools/keep_seeds.py').read()
 m = re.search(r'NEEDS_H = \{(.*?)\n\}', src, re.S)
@@ -81,7 +89,7 @@ for mm in re.finditer(r'"(C\d\d)": \("([^"]*)", "((?:[^"\\]|\\.)*)", "((?:[^"\\]
     NEEDS_H[mm.group(1)] = (mm.group(3), mm.group(4))
 
 root, suffix, confirm_glob, asis_log, final_log = sys.argv[1:6]
-NEEDS = NEEDS_I if suffix == 'i' else NEEDS_J if suffix == 'j' else NEEDS_K if suffix == 'k' else NEEDS_H
+NEEDS = NEEDS_I if suffix == 'i' else NEEDS_J if suffix == 'j' else NEEDS_K if suffix == 'k' else NEEDS_L if suffix == 'l' else NEEDS_H
 
 confirm = {}
 for f in glob.glob(confirm_glob):
@@ -126,8 +134,8 @@ for pid in sorted(NEEDS):
     a, f_ = asis.get(pid), final.get(pid, dict(caught=[], machinery=[], silent=[]))
     meta = {
         "seed": f"{pid.lower()}{suffix}", "breaks_property": pid, "change": NEEDS[pid][0], "needs_to_manifest": NEEDS[pid][1],
-        "written_by": "independent sub-agent given only the property text and a scratch worktree" if suffix in ('i', 'j', 'k') else "re-created by a sub-agent from the one-line description of the round-8 change (the original patch and demonstration were lost with the scratch directory when the session was interrupted)",
-        "base_commit": ("c7f0ca6" if suffix == 'k' else "1ad2fed" if suffix == 'j' else "ce334d6") + " (patch.diff); patch_on_head.diff, where present, is the same change rebased onto the later hook / fix commits",
+        "written_by": "independent sub-agent given only the property text and a scratch worktree" if suffix in ('i', 'j', 'k', 'l') else "re-created by a sub-agent from the one-line description of the round-8 change (the original patch and demonstration were lost with the scratch directory when the session was interrupted)",
+        "base_commit": ("d18b97e" if suffix == 'l' else "c7f0ca6" if suffix == 'k' else "1ad2fed" if suffix == 'j' else "ce334d6") + " (patch.diff); patch_on_head.diff, where present, is the same change rebased onto the later hook / fix commits",
         "confirmed_in_scratch_worktree": {
             "command": f"tools/confirm_seed9.sh {pid} {c['features']}".strip() + f"  (SEED_ROOT={root}: pinned suite with the change, then demo/seed_demo.rs with and without it)",
             "suite_with_change": c['suite'], "demo_with_change": c['demo_with'], "demo_without_change": c['demo_without'],
